@@ -1201,6 +1201,11 @@ class NetCDFWrite(IOWrite):
         ncvar = self.implementation.nc_get_geometry_variable(
             field, default="geometry_container"
         )
+        if not g["group"]:
+            # A flat file has been requested, so strip off any group
+            # structure from the name.
+            ncvar = self._remove_group_structure(ncvar)
+
         ncvar = self._netcdf_name(ncvar)
 
         logger.info(
